@@ -40,6 +40,7 @@ type HarnessSpec struct {
 	Quick     TierCfg  `json:"quick"`
 	Thorough  TierCfg  `json:"thorough"`
 	What      string   `json:"what"`
+	Solver    string   `json:"solver"` // "" (incremental first) | "fresh" (sliced fresh-context portfolio)
 }
 
 type Spec struct {
@@ -278,7 +279,7 @@ func runCheck(id, tier, only string, replay, verbose bool, extraOv, evOut string
 		}
 		cfg := &HarnessCfg{Name: h.Name, Pkg: h.Pkg, Unwind: h.Unwind, Params: tc.Params, TimeoutS: tc.TimeoutS,
 			GoPolicy: h.GoPolicy, InitPkgs: h.InitPkgs, Covers: h.Covers, MaxInstrs: h.MaxInstrs, MaxPaths: tc.MaxPaths,
-			IncTimeoutMs: tc.IncTimeoutMs, FreshTimeoutMs: tc.FreshTimeoutMs}
+			IncTimeoutMs: tc.IncTimeoutMs, FreshTimeoutMs: tc.FreshTimeoutMs, Solver: h.Solver}
 		if tc.Unwind > 0 {
 			cfg.Unwind = tc.Unwind
 		}
@@ -392,6 +393,7 @@ func runHarness(prog *ssa.Program, cfg *HarnessCfg, knownOpen map[string]bool, v
 	}
 	sol := NewSolver(SolverCfg{IncTimeoutMs: inc, FreshTimeoutMs: fr})
 	sol.Verbose = verbose
+	sol.FreshOnly = cfg.Solver == "fresh"
 	defer sol.Close()
 	e := &Engine{prog: prog, fset: prog.Fset, sol: sol, res: res, cfg: cfg, maxFind: 12, findKey: map[string]bool{},
 		vpPkg: modPath + "/internal/vp", methCache: map[string]*ssa.Function{}, knownOpen: knownOpen}
